@@ -15,7 +15,8 @@
    case_variant lower upper a c := lower a = lower c /\ upper a = upper c  (what is_case_variant computes).
    toks_ok n toks is the C02 token invariant: spans in bounds of a text of length n, ordered,
    disjoint, word-like tokens non-empty.  History/C18History.v: the code before 41fa706 (FC18a/FC18b). *)
-Require Import Base Tables_titlecase TitleCase TitleCaseProofs C18History.
+Require Import Base Overlap Tables_lexer Lexer Condense LexerProofs C18LexStable.
+Require Import Base Tables_titlecase TitleCase TitleCaseProofs C18History C18Str C18StrProofs.
 From Coq Require Import Sorting.Sorted.
 
 (* no panic: for tokens satisfying the C02 invariant, provided the canonical spelling the
@@ -273,6 +274,207 @@ Check C18_title_case_on_tokens : forall lower upper is_lowercase dict_canon dict
     make_title_case lower upper is_lowercase dict_canon dict_meta toks out = Ok out.
 Print Assumptions C18_title_case_on_tokens.
 
+(* ================= phase 3: the lexer half and the statement about STRINGS ================= *)
+(* THE LEXER HALF (phase 3), over C02's frozen Lexer.v / Condense.v, for ANY Unicode tables u.
+   The lexer is not case-insensitive (see C18_relex_unstable_witness), so the statement is about PLAIN texts:
+   every character is a word character (wchar: lingual, alphabetic, not numeric, not punctuation), a
+   blank (tab, newline, space), a punctuation / quote character other than  . @ : [ ' ’ ‘ ＇ , or a character
+   no sub-lexer claims (ochar: not lingual, not numeric, no ASCII letter or digit); no ASCII digit.
+   Rw u a c := a = c \/ (wchar u a /\ wchar u c) \/ (ochar u a /\ ochar u c).  If two plain texts differ only
+   in which word character (resp. unclaimed character) stands at a position, Document::new_plain_english (PlainEnglish::parse + all passes of Document::parse)
+   gives the SAME token list — spans, kinds, payloads *)
+Theorem C18_lex_case_stable : forall u (s s' : text),
+  Forall2 (Rw u) s s' -> Plain u s -> Plain u s' -> document_plain u s' = document_plain u s.
+Proof. exact document_plain_congr. Qed.
+Check C18_lex_case_stable : forall u (s s' : text),
+  Forall2 (Rw u) s s' -> Plain u s -> Plain u s' -> document_plain u s' = document_plain u s.
+Print Assumptions C18_lex_case_stable.
+
+(* make_title_case_str ABOUT STRINGS (Model/C18Str.v: title_case_str = Document::new_from_vec with PlainEnglish
+   — C02's lexer and passes, then the dictionary metadata of every Word — followed by make_title_case).
+   No panic, for EVERY text, under H_canon_len alone: the token invariant is no longer a premise, it is
+   C02's theorem document_plain_tiling *)
+Theorem C18_str_total : forall u lower upper is_lowercase dict_canon dict_meta (src : text),
+  (forall w cc, dict_canon w = Some cc -> length w <= length cc) ->
+  exists out, title_case_str u lower upper is_lowercase dict_canon dict_meta src = Ok out.
+Proof. exact str_total. Qed.
+Check C18_str_total : forall u lower upper is_lowercase dict_canon dict_meta (src : text),
+  (forall w cc, dict_canon w = Some cc -> length w <= length cc) ->
+  exists out, title_case_str u lower upper is_lowercase dict_canon dict_meta src = Ok out.
+Print Assumptions C18_str_total.
+
+(* same length, for EVERY text, no premise *)
+Theorem C18_str_length : forall u lower upper is_lowercase dict_canon dict_meta (src out : text),
+  title_case_str u lower upper is_lowercase dict_canon dict_meta src = Ok out -> length out = length src.
+Proof. exact str_length. Qed.
+Check C18_str_length : forall u lower upper is_lowercase dict_canon dict_meta (src out : text),
+  title_case_str u lower upper is_lowercase dict_canon dict_meta src = Ok out -> length out = length src.
+Print Assumptions C18_str_length.
+
+(* only the case of letters changes, for EVERY text: output character k is a case variant of input character
+   k, or the straight apostrophe over a curly one (tc_rel) *)
+Theorem C18_str_case_only : forall u lower upper is_lowercase dict_canon dict_meta (src out : text),
+  lower_ascii_law lower -> upper_ascii_law upper -> apostrophes_caseless lower upper ->
+  title_case_str u lower upper is_lowercase dict_canon dict_meta src = Ok out ->
+  forall k c, nth_error out k = Some c ->
+    exists a, nth_error src k = Some a /\
+      (case_variant lower upper a c \/ (In a tc_canonical_apostrophe_from /\ c = tc_canonical_apostrophe_to)).
+Proof. exact str_case_only. Qed.
+Check C18_str_case_only : forall u lower upper is_lowercase dict_canon dict_meta (src out : text),
+  lower_ascii_law lower -> upper_ascii_law upper -> apostrophes_caseless lower upper ->
+  title_case_str u lower upper is_lowercase dict_canon dict_meta src = Ok out ->
+  forall k c, nth_error out k = Some c ->
+    exists a, nth_error src k = Some a /\
+      (case_variant lower upper a c \/ (In a tc_canonical_apostrophe_from /\ c = tc_canonical_apostrophe_to)).
+Print Assumptions C18_str_case_only.
+
+(* the first word-like token of the document starts upper-case when it starts with an ASCII letter, for EVERY text *)
+Theorem C18_str_first_upper : forall u lower upper is_lowercase dict_canon dict_meta (src out : text) toks w0 rest,
+  ascii_variant_closed lower upper ->
+  title_case_str u lower upper is_lowercase dict_canon dict_meta src = Ok out ->
+  document_tokens u dict_meta src = Ok toks -> filter tok_word_like toks = w0 :: rest ->
+  exists a c, nth_error src (tstart w0) = Some a /\ nth_error out (tstart w0) = Some c /\
+              is_ascii_lower c = false /\ (is_ascii_alpha a = true -> is_ascii_upper c = true).
+Proof. exact str_first_upper. Qed.
+Check C18_str_first_upper : forall u lower upper is_lowercase dict_canon dict_meta (src out : text) toks w0 rest,
+  ascii_variant_closed lower upper ->
+  title_case_str u lower upper is_lowercase dict_canon dict_meta src = Ok out ->
+  document_tokens u dict_meta src = Ok toks -> filter tok_word_like toks = w0 :: rest ->
+  exists a c, nth_error src (tstart w0) = Some a /\ nth_error out (tstart w0) = Some c /\
+              is_ascii_lower c = false /\ (is_ascii_alpha a = true -> is_ascii_upper c = true).
+Print Assumptions C18_str_first_upper.
+
+(* IDEMPOTENCE of make_title_case_str for EVERY text, from the residue H_relex: the title-cased text yields
+   the same document tokens (spans, kinds, Word metadata).  `_partial`: H_relex is not a theorem for all
+   texts — it is FALSE for some (C18_relex_unstable_witness) — so it stays a premise, monitored on every
+   generated title (H_case_stable); for plain texts it is proved (C18_str_relex_plain) *)
+Theorem C18_str_idempotent_partial : forall u lower upper is_lowercase dict_canon dict_meta (src out : text),
+  lower_ascii_law lower -> upper_ascii_law upper -> apostrophes_caseless lower upper ->
+  lowercase_fixed lower is_lowercase -> apostrophes_lower_fixed lower ->
+  dict_case_insensitive lower upper is_lowercase dict_canon dict_meta ->
+  title_case_str u lower upper is_lowercase dict_canon dict_meta src = Ok out ->
+  document_tokens u dict_meta out = document_tokens u dict_meta src ->
+  title_case_str u lower upper is_lowercase dict_canon dict_meta out = Ok out.
+Proof. exact str_idempotent_partial. Qed.
+Check C18_str_idempotent_partial : forall u lower upper is_lowercase dict_canon dict_meta (src out : text),
+  lower_ascii_law lower -> upper_ascii_law upper -> apostrophes_caseless lower upper ->
+  lowercase_fixed lower is_lowercase -> apostrophes_lower_fixed lower ->
+  dict_case_insensitive lower upper is_lowercase dict_canon dict_meta ->
+  title_case_str u lower upper is_lowercase dict_canon dict_meta src = Ok out ->
+  document_tokens u dict_meta out = document_tokens u dict_meta src ->
+  title_case_str u lower upper is_lowercase dict_canon dict_meta out = Ok out.
+Print Assumptions C18_str_idempotent_partial.
+
+(* H_relex PROVED for plain, case-stable texts: plain_stable_text u lower upper s := every character a of s
+   is in the plain class and is CASE-STABLE — each case variant c of a is a itself, or a and c are both word
+   characters, or both characters no sub-lexer claims (with the real tables: every plain character except
+   U+A7D2..U+A7D5, whose case pairs std knows while unicode-script does not know their script; the harness
+   recomputes the exceptions from all code points on every run).  One new contract (monitored on every Word
+   of every title): dict_meta_case_insensitive — get_word_metadata itself, not only after to_lower, does not
+   see case / apostrophe style *)
+Theorem C18_str_relex_plain : forall u lower upper is_lowercase dict_canon dict_meta (src out : text),
+  lower_ascii_law lower -> upper_ascii_law upper -> apostrophes_caseless lower upper ->
+  dict_meta_case_insensitive lower upper dict_meta ->
+  plain_stable_text u lower upper src ->
+  title_case_str u lower upper is_lowercase dict_canon dict_meta src = Ok out ->
+  document_tokens u dict_meta out = document_tokens u dict_meta src /\ plain_text u out = true.
+Proof. exact str_relex_plain. Qed.
+Check C18_str_relex_plain : forall u lower upper is_lowercase dict_canon dict_meta (src out : text),
+  lower_ascii_law lower -> upper_ascii_law upper -> apostrophes_caseless lower upper ->
+  dict_meta_case_insensitive lower upper dict_meta ->
+  plain_stable_text u lower upper src ->
+  title_case_str u lower upper is_lowercase dict_canon dict_meta src = Ok out ->
+  document_tokens u dict_meta out = document_tokens u dict_meta src /\ plain_text u out = true.
+Print Assumptions C18_str_relex_plain.
+
+(* IDEMPOTENCE of make_title_case_str on plain texts — no premise about the lexer or the tokens *)
+Theorem C18_str_idempotent_plain : forall u lower upper is_lowercase dict_canon dict_meta (src out : text),
+  lower_ascii_law lower -> upper_ascii_law upper -> apostrophes_caseless lower upper ->
+  lowercase_fixed lower is_lowercase -> apostrophes_lower_fixed lower ->
+  dict_case_insensitive lower upper is_lowercase dict_canon dict_meta ->
+  dict_meta_case_insensitive lower upper dict_meta ->
+  plain_stable_text u lower upper src ->
+  title_case_str u lower upper is_lowercase dict_canon dict_meta src = Ok out ->
+  title_case_str u lower upper is_lowercase dict_canon dict_meta out = Ok out.
+Proof. exact str_idempotent_plain. Qed.
+Check C18_str_idempotent_plain : forall u lower upper is_lowercase dict_canon dict_meta (src out : text),
+  lower_ascii_law lower -> upper_ascii_law upper -> apostrophes_caseless lower upper ->
+  lowercase_fixed lower is_lowercase -> apostrophes_lower_fixed lower ->
+  dict_case_insensitive lower upper is_lowercase dict_canon dict_meta ->
+  dict_meta_case_insensitive lower upper dict_meta ->
+  plain_stable_text u lower upper src ->
+  title_case_str u lower upper is_lowercase dict_canon dict_meta src = Ok out ->
+  title_case_str u lower upper is_lowercase dict_canon dict_meta out = Ok out.
+Print Assumptions C18_str_idempotent_plain.
+
+(* the whole property text, about STRINGS, for a plain text: the conversion succeeds, keeps the length, every
+   output character is a case variant of the input character (a plain text has no curly apostrophe), the first
+   word-like token starts upper-case when it starts with an ASCII letter, and converting again changes nothing *)
+Theorem C18_str_title_case_plain : forall u lower upper is_lowercase dict_canon dict_meta (src : text),
+  lower_ascii_law lower -> upper_ascii_law upper -> apostrophes_caseless lower upper ->
+  ascii_variant_closed lower upper -> lowercase_fixed lower is_lowercase -> apostrophes_lower_fixed lower ->
+  dict_case_insensitive lower upper is_lowercase dict_canon dict_meta ->
+  (forall w cc, dict_canon w = Some cc -> length w <= length cc) ->
+  dict_meta_case_insensitive lower upper dict_meta ->
+  plain_stable_text u lower upper src ->
+  exists out,
+    title_case_str u lower upper is_lowercase dict_canon dict_meta src = Ok out /\
+    length out = length src /\
+    (forall k c, nth_error out k = Some c -> exists a, nth_error src k = Some a /\ case_variant lower upper a c) /\
+    (forall toks w0 rest, document_tokens u dict_meta src = Ok toks -> filter tok_word_like toks = w0 :: rest ->
+       exists a c, nth_error src (tstart w0) = Some a /\ nth_error out (tstart w0) = Some c /\
+                   is_ascii_lower c = false /\ (is_ascii_alpha a = true -> is_ascii_upper c = true)) /\
+    title_case_str u lower upper is_lowercase dict_canon dict_meta out = Ok out.
+Proof. exact str_property_plain. Qed.
+Check C18_str_title_case_plain : forall u lower upper is_lowercase dict_canon dict_meta (src : text),
+  lower_ascii_law lower -> upper_ascii_law upper -> apostrophes_caseless lower upper ->
+  ascii_variant_closed lower upper -> lowercase_fixed lower is_lowercase -> apostrophes_lower_fixed lower ->
+  dict_case_insensitive lower upper is_lowercase dict_canon dict_meta ->
+  (forall w cc, dict_canon w = Some cc -> length w <= length cc) ->
+  dict_meta_case_insensitive lower upper dict_meta ->
+  plain_stable_text u lower upper src ->
+  exists out,
+    title_case_str u lower upper is_lowercase dict_canon dict_meta src = Ok out /\
+    length out = length src /\
+    (forall k c, nth_error out k = Some c -> exists a, nth_error src k = Some a /\ case_variant lower upper a c) /\
+    (forall toks w0 rest, document_tokens u dict_meta src = Ok toks -> filter tok_word_like toks = w0 :: rest ->
+       exists a c, nth_error src (tstart w0) = Some a /\ nth_error out (tstart w0) = Some c /\
+                   is_ascii_lower c = false /\ (is_ascii_alpha a = true -> is_ascii_upper c = true)) /\
+    title_case_str u lower upper is_lowercase dict_canon dict_meta out = Ok out.
+Print Assumptions C18_str_title_case_plain.
+
+(* FC18c — IDEMPOTENCE of make_title_case_str REFUTED for arbitrary texts (the faithful end-to-end model violates
+   the property; the witness replayed on the implementation is the known finding FC18c): with the ASCII
+   restriction of Unicode and a dictionary in which `ss` is a proper noun spelt `SS`, "ss.a'b" becomes "SS.A'b"
+   and that becomes "SS.A'B" — the first pass lexes Word(ss) Period Word(a'b), its output lexes
+   Hostname(SS.A) Apostrophe Word(b), so the second pass finds a new last word to capitalise.  All monitored
+   contracts hold for the instance; only the residue H_relex of C18_str_idempotent_partial fails.  The real
+   function with the curated dictionary: "ss.a'b" -> "SS.A'b" -> "SS.A'B", "on ss.it's up" -> "On SS.It's Up"
+   -> "On SS.It'S Up" (corpus/C18/relex.json).  Cause: lex_plural_digit wants a lower-case `s`; proposed patch
+   fixes/FC18c_plural_digit_case.diff *)
+Theorem C18_str_idempotent_refuted : exists u lower upper is_lowercase dict_canon dict_meta (src out out2 : text),
+    lower_ascii_law lower /\ upper_ascii_law upper /\ apostrophes_caseless lower upper /\
+    ascii_variant_closed lower upper /\ lowercase_fixed lower is_lowercase /\ apostrophes_lower_fixed lower /\
+    dict_case_insensitive lower upper is_lowercase dict_canon dict_meta /\
+    dict_meta_case_insensitive lower upper dict_meta /\
+    (forall w cc, dict_canon w = Some cc -> length w <= length cc) /\
+    title_case_str u lower upper is_lowercase dict_canon dict_meta src = Ok out /\
+    title_case_str u lower upper is_lowercase dict_canon dict_meta out = Ok out2 /\
+    out2 <> out /\
+    document_tokens u dict_meta out <> document_tokens u dict_meta src.
+Proof. exact str_idempotent_refuted. Qed.
+Check C18_str_idempotent_refuted : exists u lower upper is_lowercase dict_canon dict_meta (src out out2 : text),
+    lower_ascii_law lower /\ upper_ascii_law upper /\ apostrophes_caseless lower upper /\
+    ascii_variant_closed lower upper /\ lowercase_fixed lower is_lowercase /\ apostrophes_lower_fixed lower /\
+    dict_case_insensitive lower upper is_lowercase dict_canon dict_meta /\
+    dict_meta_case_insensitive lower upper dict_meta /\
+    (forall w cc, dict_canon w = Some cc -> length w <= length cc) /\
+    title_case_str u lower upper is_lowercase dict_canon dict_meta src = Ok out /\
+    title_case_str u lower upper is_lowercase dict_canon dict_meta out = Ok out2 /\
+    out2 <> out /\
+    document_tokens u dict_meta out <> document_tokens u dict_meta src.
+Print Assumptions C18_str_idempotent_refuted.
+
 (* ---------- non-vacuity ---------- *)
 (* "the wordpress of a" -> "The WordPress of A" over an example dictionary that finds words by their
    folded form: EVERY hypothesis of every theorem above holds on it (the seven laws for all
@@ -347,3 +549,47 @@ Example C18_old_refuted :
   kw_out2_old <> kw_out_old /\
   nth_error kw_src 6 = Some 8490%N /\ nth_error kw_out_old 6 = Some 75%N.
 Proof. destruct kelvin_old_refuted as (H1 & H2 & H3 & H4 & H5 & _). repeat split; assumption. Qed.
+
+(* ---------- non-vacuity of the string-level theorems ---------- *)
+(* the ASCII restriction of Unicode (LexerProofs.ascii_uni) and the example dictionary satisfy the two new
+   contracts for ALL characters / words; "the wordpress of a" is a plain text, its document tokens are
+   ex_toks (so the token-level Example above is the same run), make_title_case_str gives "The WordPress of A"
+   and, applied again, the same *)
+Example C18_str_nonvacuous :
+  plain_case_closed ascii_uni ex_lower ex_upper /\ dict_meta_case_insensitive ex_lower ex_upper ex_meta /\
+  plain_stable_text ascii_uni ex_lower ex_upper ex_src /\
+  plain_text ascii_uni ex_src = true /\
+  document_tokens ascii_uni ex_meta ex_src = Ok ex_toks /\
+  title_case_str ascii_uni ex_lower ex_upper ex_islower ex_canon ex_meta ex_src = Ok ex_out /\
+  title_case_str ascii_uni ex_lower ex_upper ex_islower ex_canon ex_meta ex_out = Ok ex_out /\
+  ex_out <> ex_src.
+Proof.
+  split; [exact ex_plain_case_closed|]. split; [exact ex_dict_meta_case_insensitive|].
+  split; [exact ex_plain_stable|].
+  destruct ex_str_run as (H1 & H2 & H3 & H4). repeat split; try assumption. discriminate.
+Qed.
+
+(* two plain texts related by Rw: "ab, cd" and "AB, Cd" lex alike (hypotheses of C18_lex_case_stable) *)
+Example C18_lex_case_stable_nonvacuous :
+  let s := [97; 98; 44; 32; 99; 100]%N in let s' := [65; 66; 44; 32; 67; 100]%N in
+  plain_text ascii_uni s = true /\ plain_text ascii_uni s' = true /\
+  forallb (fun p => (fst p =? snd p)%N || (wchar ascii_uni (fst p) && wchar ascii_uni (snd p))) (combine s s') = true /\
+  document_plain ascii_uni s' = document_plain ascii_uni s /\ s' <> s.
+Proof. cbv zeta. repeat split; try (vm_compute; reflexivity). discriminate. Qed.
+
+(* THE LEXER IS CASE-SENSITIVE — the residue of C18_str_idempotent_partial is not vacuous.  Dictionary:
+   `ss` is a proper noun with canonical spelling `SS` (the curated dictionary has such entries).
+   "ss.s" lexes as Word Period Word (lex_plural_digit takes `ss` because a lower-case s precedes the dot);
+   its title case "SS.S" lexes as ONE Hostname, so `document_tokens out = document_tokens src` FAILS — and
+   yet converting again changes nothing (a Hostname only has its first character upper-cased).  Not a
+   finding: make_title_case_str is idempotent here; the real lexer shows the same (harness:
+   H_case_stable:violated, corpus/C18/relex.json) *)
+Example C18_relex_unstable_witness :
+  title_case_str ascii_uni ex_lower ex_upper ex_islower wit_canon wit_meta wit_src = Ok wit_out /\
+  document_tokens ascii_uni wit_meta wit_src
+    = Ok [mktok (mkspan 0 2) (KWord (Some (mkmeta true false false))); mktok (mkspan 2 3) KPunct;
+          mktok (mkspan 3 4) (KWord None)] /\
+  document_tokens ascii_uni wit_meta wit_out = Ok [mktok (mkspan 0 4) KHostname] /\
+  plain_text ascii_uni wit_src = false /\
+  title_case_str ascii_uni ex_lower ex_upper ex_islower wit_canon wit_meta wit_out = Ok wit_out.
+Proof. exact relex_unstable_witness. Qed.
